@@ -17,8 +17,13 @@ pub const PROP: &str = "C03";
 #[derive(Serialize, Deserialize, Clone, Debug, PartialEq)]
 pub enum Step {
     W(Op),
-    /// tag HEAD with the public part of flow's own current output (pre-release shapes)
-    Release { annotated: bool },
+    /// tag HEAD with the public part of flow's own current output (pre-release shapes); `pep`: in the
+    /// spelling of `--output-format pep440`
+    Release {
+        annotated: bool,
+        #[serde(default)]
+        pep: bool,
+    },
     /// tag HEAD with the next final release X.Y.(Z+1) / X.(Y+1).0 / (X+1).0.0
     FinalRelease { bump: u8 },
     Observe,
@@ -138,7 +143,7 @@ pub fn generate(r: &mut Rng, _tier: Tier, _group: u64) -> serde_json::Value {
             4 => Step::W(Op::Clean),
             5 => Step::W(Op::Merge { others: vec![r.below(8) as usize], actor: a, dt: dt(r) }),
             6 => Step::W(Op::FastForward { branch: r.below(8) as usize }),
-            7 => Step::Release { annotated: r.chance(1, 3) },
+            7 => Step::Release { annotated: r.chance(1, 3), pep: r.chance(1, 3) },
             8 => Step::FinalRelease { bump: r.below(3) as u8 },
             9 => Step::W(Op::Detach { commit: r.below(32) as usize }),
             10 => Step::Observe,
@@ -245,6 +250,9 @@ pub fn final_xyz(tag: &str) -> Option<(String, String, String)> {
 
 /// `[v]X.Y.Z-label.N[.post.P]` – the pre-release shapes flow itself produces
 pub fn flow_prerelease(tag: &str) -> Option<(String, String, String, String, String, Option<String>)> {
+    if let Some(p) = pep_prerelease(tag) {
+        return Some(p);
+    }
     let s = ver::parse_semver(tag)?;
     if !s.build.is_empty() {
         return None;
@@ -256,6 +264,26 @@ pub fn flow_prerelease(tag: &str) -> Option<(String, String, String, String, Str
         [l, n, p, pn] if label_ok(l) && is_num(n) && p == "post" && is_num(pn) => Some((s.major, s.minor, s.patch, l.clone(), n.clone(), Some(pn.clone()))),
         _ => None,
     }
+}
+
+/// `[v]X.Y.Z{a|b|rc}N[.postP]` – the same shapes in the spelling flow prints for `--output-format pep440`
+pub fn pep_prerelease(tag: &str) -> Option<(String, String, String, String, String, Option<String>)> {
+    if ver::parse_semver(tag).is_some() {
+        return None;
+    }
+    let p = ver::parse_pep440(tag)?;
+    let (cls, n) = p.pre.clone()?;
+    if p.release.len() != 3 || p.dev.is_some() || !p.local.is_empty() || p.epoch != "0" {
+        return None;
+    }
+    let lab = ["a", "b", "rc"][cls as usize];
+    let long = ["alpha", "beta", "rc"][cls as usize];
+    // canonical spelling only (what flow prints), with an optional leading v
+    let canon = format!("{}.{}.{}{lab}{n}{}", p.release[0], p.release[1], p.release[2], p.post.as_ref().map(|x| format!(".post{x}")).unwrap_or_default());
+    if tag.strip_prefix('v').unwrap_or(tag) != canon {
+        return None;
+    }
+    Some((p.release[0].clone(), p.release[1].clone(), p.release[2].clone(), long.to_string(), n, p.post.clone()))
 }
 
 enum Parsed {
@@ -379,7 +407,7 @@ fn judge_one(f: &str, o: &crate::proc::Outcome, tag: &str, at_tag_clean: bool, s
         if at_tag_clean {
             stats.bump("clause4_evaluated");
             let want = if f == "semver" {
-                tag.strip_prefix('v').unwrap_or(tag).to_string()
+                format!("{x}.{y}.{z}-{l}.{n}{}", p.as_ref().map(|p| format!(".post.{p}")).unwrap_or_default())
             } else {
                 let lab = match l.as_str() {
                     "alpha" => "a",
@@ -435,7 +463,7 @@ pub fn execute(ctx: &Ctx, scv: &serde_json::Value, rd: &RunDir, stats: &mut Stat
                     }
                 }
             }
-            Step::Release { annotated } => {
+            Step::Release { annotated, pep } => {
                 if w.head_commit().is_none() {
                     continue;
                 }
@@ -446,14 +474,14 @@ pub fn execute(ctx: &Ctx, scv: &serde_json::Value, rd: &RunDir, stats: &mut Stat
                         rf.extend([k.to_string(), v.to_string()]);
                     }
                 }
-                let o = run_flow(ctx, rd, &w, &rf, "semver", now, stats);
+                let o = run_flow(ctx, rd, &w, &rf, if *pep { "pep440" } else { "semver" }, now, stats);
                 if !o.ok() {
                     stats.event(format!("step {i} release: flow failed: {}", short(&o.err_str(), 200)));
                     continue;
                 }
                 let line = o.out_str().trim().to_string();
                 let public = line.split('+').next().unwrap_or("").to_string();
-                let public = match public.find(".dev.") {
+                let public = match public.find(".dev") {
                     Some(p) => public[..p].to_string(),
                     None => public,
                 };
